@@ -59,6 +59,8 @@ func cmdFunc(args []string) {
 	dir := fs.String("repo", "/repo", "repository")
 	verbose := fs.Bool("v", false, "verbose")
 	own := fs.Bool("own", false, "ownership discipline (C17)")
+	share := fs.Bool("share", false, "sharing discipline (C18)")
+	classes := fs.String("classes", "", "comma-separated obligation classes to keep")
 	narrow := fs.Bool("narrow", false, "narrow obligations (C13)")
 	absc := fs.Bool("absconc", false, "ignore go statements, opaque channels")
 	fs.Parse(args)
@@ -84,7 +86,7 @@ func cmdFunc(args []string) {
 				ct = nil
 			}
 			par <- struct{}{}
-			res := w.GenVC(fn, ct, func(e *vc.Engine) { e.OwnCheck = *own; e.CheckNarrow = *narrow; e.AbstractConc = *absc })
+			res := w.GenVC(fn, ct, func(e *vc.Engine) { e.OwnCheck = *own; e.CheckNarrow = *narrow; e.AbstractConc = *absc; e.ShareCheck = *share })
 			<-par
 			var out strings.Builder
 			if res.Rejected != "" {
@@ -94,6 +96,17 @@ func cmdFunc(args []string) {
 				fmt.Print(out.String())
 				mu.Unlock()
 				return
+			}
+			if *classes != "" {
+				var kept []*vc.Obligation
+				for _, ob := range res.Engine.Obls {
+					for _, c := range strings.Split(*classes, ",") {
+						if ob.Class == c {
+							kept = append(kept, ob)
+						}
+					}
+				}
+				res.Engine.Obls = kept
 			}
 			rs := res.Engine.Solve("/tmp/govc-smt", *to, false, par)
 			cnt := map[string]int{}
